@@ -72,7 +72,9 @@ package guardiand
 //@   ensures [rejects] err != nil ==> v == nil
 //@   ensures [envelope] err == nil ==> envelope(v, gc, ga, ts, gsi, nonce, seq, tc)
 //@   ensures [lossless-chain] err == nil ==> be16at(v.Payload, ral_registerChain_remoteChainId_off) == req.ChainId
-//@   ensures [payload] err == nil ==> v.Payload[32] == ral_tb_action_RegisterChain && len(v.Payload) == ral_registerChain_size_base && len(unhex(req.EmitterAddress)) == 32 && (forall j in 0..32 :: v.Payload[ral_registerChain_remoteTokenBridgeId_off + j] == unhex(req.EmitterAddress)[j])
+//@   ensures [payload] err == nil ==> v.Payload[32] == ral_tb_action_RegisterChain && len(v.Payload) == ral_registerChain_size_base
+//@   ensures [emitter-decoded] err == nil ==> hexok(req.EmitterAddress) && len(unhex(req.EmitterAddress)) == 32
+//@   ensures [emitter] err == nil ==> (forall j in 0..32 :: v.Payload[ral_registerChain_remoteTokenBridgeId_off + j] == unhex(req.EmitterAddress)[j])
 //@   ensures [module] err == nil ==> len(req.Module) <= 32 && (forall j in 0..len(req.Module) :: v.Payload[32 - len(req.Module) + j] == str2bytes(req.Module)[j])
 //@   modifies fresh vaa.VAA.*, fresh lib:bytes.Buffer.b
 //@   nopanic
